@@ -42,6 +42,11 @@ var vTextFams = []vTextFam{
 	24: {"\"", "\" 7", "\x80\xc3\xa9\xe2\x82a\xf0"}, // UTF-8 well-formedness inside short strings
 	25: {"'", "' 7", "\x80\xc3\xa9\xe2\x82a"},       // ... inside quoted symbols
 	26: {"'''", "''' 7", "\x80\xc3\xa9a\xed\xa0"}, // ... inside long strings (incl. an encoded surrogate)
+	27: {"'''a", "", "'a \n\\"},                // input that ends inside a long string or inside its closing quotes
+	28: {"{{'''a", "", "'} a\\"},                // ... inside a long clob
+	29: {"[1, '''a", "", "'] a"},                 // ... inside a long string inside a list
+	30: {"\"ab", "", "\\\"nxu0"},                  // ... inside a short string or one of its escapes
+	31: {"1 /", "", "*/ a\n"},                      // ... inside a comment
 }
 
 func vInAlpha(c byte, alpha string) bool {
@@ -64,7 +69,9 @@ func H_C02_family() {
 	doc := vCat([]byte(fam.prefix), x, []byte(fam.suffix))
 	evs, ok, unsure := refTextParse(doc)
 	vassume(!unsure)
-	vassume(ok == (want == 1))
+	if want < 2 { // want=2 (C06): valid and malformed inputs alike
+		vassume(ok == (want == 1))
+	}
 	r := NewReaderBytes(doc)
 	var got []vEv
 	stepErr := vTraverse(r, 0, 8, false, &got)
